@@ -97,6 +97,10 @@ func rootsFor(prop, tier string) []Root {
 			if thorough {
 				add("VH_C13_Str", t, 1200)
 			}
+			if t == 15 || t == 252 {
+				// the longest VARCHAR / a blob beyond 64 KB: 65,535- resp. 70,000-byte values fit the buffer
+				rs = append(rs, Root{Prop: prop, Harness: "VH_C13_Str", Params: []int{t, 70010}, MaxSteps: 400000000})
+			}
 		}
 	case "C01":
 		for cfg := 0; cfg < 16; cfg++ {
@@ -163,13 +167,13 @@ func rootsFor(prop, tier string) []Root {
 		// a master error whose message is long enough to look like any fixed text
 		rs = append(rs, Root{Prop: prop, Harness: "VH_C05_Stream", Params: []int{2, 0, 0, 2}, MaxDecs: 4000, MaxSteps: 30000000})
 		npk := []int{0, 1, 2}
-		for cause := 0; cause < 10; cause++ {
+		for cause := 0; cause < 11; cause++ {
 			for _, n := range npk {
 				for ahead := 0; ahead < 2; ahead++ {
 					if cause >= 5 && cause <= 7 && (n != 1 || ahead != 0) {
 						continue // handshake failures: no packets flow
 					}
-					if cause == 4 && n == 0 {
+					if (cause == 4 || cause == 10) && n == 0 {
 						continue // no transaction, hence no handler failure and no stop cause
 					}
 					if !thorough && n == 2 && ahead == 1 && cause != 4 {
@@ -203,12 +207,18 @@ func rootsFor(prop, tier string) []Root {
 			add("VH_C08_Transport", 4100, 60)
 			add("VH_C08_Transport", 60, 4100)
 		}
-		for sh := 0; sh < 13; sh++ {
+		for sh := 0; sh < 25; sh++ {
 			add("VH_C08_Scribble", sh, 0)
 			add("VH_C08_Scribble", sh, 1)
 		}
 		for st := 0; st < 6; st++ {
 			rs = append(rs, Root{Prop: prop, Harness: "VH_C08_Row", Params: []int{st}, MaxDecs: 3000})
+		}
+		for _, st := range []int{2, 5} {
+			rs = append(rs, Root{Prop: prop, Harness: "VH_C08_Update", Params: []int{st}, MaxDecs: 4000})
+		}
+		if thorough {
+			rs = append(rs, Root{Prop: prop, Harness: "VH_C08_Update", Params: []int{3}, MaxDecs: 4000})
 		}
 		rs = append(rs, Root{Prop: prop, Harness: "VH_C08_Retain", Params: []int{2}, MaxDecs: 2000, MaxSteps: 20000000})
 		if thorough {
@@ -279,10 +289,14 @@ func rootsFor(prop, tier string) []Root {
 			rs = append(rs, Root{Prop: prop, Harness: "VH_C14_LongString", Params: []int{n, 0, 0}, MaxDecs: 3000, MaxSteps: 20000000})
 			rs = append(rs, Root{Prop: prop, Harness: "VH_C14_LongString", Params: []int{n, 1, 1}, MaxDecs: 3000, MaxSteps: 20000000})
 		}
+		// documents beyond 64 KB: only the large format can hold them (array element / object member of 70,000 bytes)
+		rs = append(rs, Root{Prop: prop, Harness: "VH_C14_LongString", Params: []int{70000, 1, 1}, MaxDecs: 40000, MaxSteps: 2000000000})
+		rs = append(rs, Root{Prop: prop, Harness: "VH_C14_LongString", Params: []int{70000, 2, 1}, MaxDecs: 40000, MaxSteps: 2000000000})
 		if thorough {
 			for _, n := range []int{255, 384, 16383, 16384} {
 				rs = append(rs, Root{Prop: prop, Harness: "VH_C14_LongString", Params: []int{n, 2, 0}, MaxDecs: 40000, MaxSteps: 400000000})
 			}
+
 		}
 		for lg := 0; lg < 2; lg++ {
 			rs = append(rs, Root{Prop: prop, Harness: "VH_C14_Struct", Params: []int{1, lg}, MaxDecs: 3000})
@@ -292,6 +306,8 @@ func rootsFor(prop, tier string) []Root {
 			}
 		}
 	case "C15":
+		// attribution by ordinal in partial images (names, types, NULL / absent marks): the C13 row harness
+		rs = append(rs, Root{Prop: prop, Harness: "VH_C13_Marks", Params: []int{3}})
 		for sh := 0; sh < 2; sh++ {
 			rs = append(rs, Root{Prop: prop, Harness: "VH_C15_Cache", Params: []int{sh}, MaxDecs: 2000})
 		}
@@ -416,7 +432,7 @@ func rootsFor(prop, tier string) []Root {
 			add("VH_C19_MariaContains", n)
 		}
 	case "C20":
-		for sh := 0; sh < 5; sh++ {
+		for sh := 0; sh < 6; sh++ {
 			rs = append(rs, Root{Prop: prop, Harness: "VH_C20_Marshal", Params: []int{sh}, MaxDecs: 4000})
 		}
 		add("VH_C20_Names")
